@@ -272,12 +272,38 @@ class ConcEnv(_EnvBase):
     """native replay of one witness"""
     symbolic = False
 
-    def __init__(self, witness, params=None):
+    def __init__(self, witness, params=None, fill=0):
         self.w = witness
         self.params = params or {}
         self.failed = []
         self.passed = 0
         self.infeasible = False
+        self.fill = fill          # strategy for inputs the witness does not mention (0: zeros/lower bound, 1..: patterns)
+        self.defaulted = 0
+
+    def _fill_bytes(self, name, n):
+        self.defaulted += 1
+        if self.fill == 0:
+            return "00" * n
+        if self.fill == 1:
+            return "01" * n
+        import hashlib
+        out = b""
+        ctr = 0
+        while len(out) < n:
+            out += hashlib.sha256(("%s/%d/%d" % (name, self.fill, ctr)).encode()).digest()
+            ctr += 1
+        return out[:n].hex()
+
+    def _fill_int(self, name, lo, hi):
+        self.defaulted += 1
+        if lo is None and hi is None:
+            return [0, 1, 7, -1, 1000003][self.fill % 5]
+        if lo is None:
+            return hi - [0, 1, 7, 1000003, 2][self.fill % 5]
+        if hi is None:
+            return lo + [0, 1, 7, 1000003, 2][self.fill % 5]
+        return min(hi, lo + [0, 1, (hi - lo) // 2, 7, (hi - lo)][self.fill % 5])
 
     def _get(self, name, default=None):
         # an input the witness does not mention was still unconstrained when the assertion
@@ -287,19 +313,22 @@ class ConcEnv(_EnvBase):
         return self.w[name]
 
     def bv(self, name, bits, lo=None, hi=None):
-        v = int(self._get(name, lo or 0))
+        v = self._get(name)
+        v = int(v) if v is not None else self._fill_int(name, lo or 0, hi if hi is not None else (1 << bits) - 1)
         if (lo is not None and v < lo) or (hi is not None and v > hi):
             raise Infeasible()
         return v
 
     def int(self, name, lo=None, hi=None):
-        v = int(self._get(name, lo if lo is not None else (hi if hi is not None else 0)))
+        v = self._get(name)
+        v = int(v) if v is not None else self._fill_int(name, lo, hi)
         if (lo is not None and v < lo) or (hi is not None and v > hi):
             raise Infeasible()
         return v
 
     def bytes(self, name, n, mode="bv"):
-        b = bytes.fromhex(self._get(name, "00" * n)) if n else b""
+        h = self._get(name)
+        b = bytes.fromhex(h if h is not None else self._fill_bytes(name, n)) if n else b""
         assert len(b) == n, "witness length mismatch for %s" % name
         return b
 
